@@ -117,6 +117,11 @@ func runC07(c *Ctx) {
 	c.Min(10)
 	stalePreImages(c, w, upd, "this replacement installs a copy of the superseded record and discards what the first one booked")
 
+	// ------------------------------------------------------------ P6
+	c.Rule("C07.P6", "SAME-VALUE", "the gas figure a message converter reports — which becomes the gas rewards credited to the pool — is what the sender is finally charged: GasUsed() at the return, or the whole gas limit only after all remaining gas was consumed (or under a pre-V4 protocol); otherwise the refund returns gas to the sender that the rewards still count, and tokens are created")
+	c.Min(6)
+	converterGasFigures(c, w)
+
 	// ------------------------------------------------------------ P2
 	c.Rule("C07.P2", "EXIT+EXHAUSTIVE", "teDeposit and teDelegationAdd (whose submission handlers debited the sender) on every return either applied the credit (UpdateValidator / UpdateDelegation) or refunded the transaction value to the sender, or run under a pre-V5 protocol version (historic behaviour); the submission and take-effect registries register the same actions")
 	c.Min(3)
